@@ -148,7 +148,7 @@ func (h *H) faultActions(rt *rapid.T, fc *faultCounters) map[string]func(*rapid.
 			h.Store.ParkNext('S')
 			level := byte(rapid.IntRange(1, 2).Draw(rt, "level"))
 			h.Act("slowSave: the next Save parks")
-			call := h.pub(level, false)
+			call := h.pub(level, rapid.Bool().Draw(rt, "retain"))
 			if h.Store.Parked() == 0 {
 				h.Store.ClearParks()
 				return // refused before it got to the Persistence
@@ -158,7 +158,11 @@ func (h *H) faultActions(rt *rapid.T, fc *faultCounters) map[string]func(*rapid.
 			// … and a publisher on the other level stores meanwhile too
 			var other *sim.Call
 			if rapid.Bool().Draw(rt, "otherLevelMeanwhile") {
-				other = h.pub(3-level, false)
+				other = h.pub(3-level, rapid.Bool().Draw(rt, "retainOther"))
+			}
+			// … and requests which do not store at all compose their packets
+			for i, k := 0, rapid.IntRange(0, 2).Draw(rt, "unrelatedMeanwhile"); i < k; i++ {
+				h.pub(0, false)
 			}
 			defer func() {
 				if other == nil {
